@@ -92,6 +92,16 @@ pub const F_EVENT_IDX: u64 = 1 << 29;
 pub const F_VERSION_1: u64 = 1 << 32;
 pub const F_ACCESS_PLATFORM: u64 = 1 << 33;
 
+/// the sound stream on behalf of another property's check (C07: every call ends; C09: no driver-owned
+/// buffer is released while posted)
+pub fn sound_cases(ctx: &Ctx, prop: &str, n: usize) -> Vec<Case> {
+    virtio_drivers::verif_hooks::set_spin_hook(Some(spin_dispatch));
+    let mut all = par_cases(ctx, prop, "snd-f10", 4, |i, id| sound::one_case(ctx, i, id, "snd-f10"));
+    all.extend(par_cases(ctx, prop, "snd", n, |i, id| sound::one_case(ctx, i, id, "snd")));
+    virtio_drivers::verif_hooks::set_spin_hook(None);
+    all
+}
+
 pub fn run(ctx: &Ctx) -> (Vec<Case>, String, bool, BTreeMap<String, String>) {
     virtio_drivers::verif_hooks::set_spin_hook(Some(spin_dispatch));
     let mut all = vec![];
